@@ -321,12 +321,14 @@ impl<'a> Run<'a> {
       }
       fail!("C07", sig(a, form, "empty_but_unread"), "{} with {} value(s) of its view unread", if timeout { "Timeout" } else { "Empty" }, self.head() - m.cursor);
     }
-    // C07: "then Disconnected once the sender is gone and it has drained its view"
+    // C07: "then Disconnected once the sender is gone and it has drained its view" — also C04's
+    // disconnect protocol, reported as C04 under the C04 check
+    let dprop = if crate::current_property() == "C04" { "C04" } else { "C07" };
     if disc && !self.tx_gone() {
-      fail!("C07", sig(a, form, "disconnected_with_live_sender"), "Disconnected while the sender is alive");
+      fail!(dprop, sig(a, form, "disconnected_with_live_sender"), "Disconnected while the sender is alive");
     }
     if !disc && self.tx_gone() {
-      fail!("C07", sig(a, form, "empty_after_sender_gone"), "{} although the sender is gone and the view is drained", if timeout { "Timeout" } else { "Empty" });
+      fail!(dprop, sig(a, form, "empty_after_sender_gone"), "{} although the sender is gone and the view is drained", if timeout { "Timeout" } else { "Empty" });
     }
     Ok(())
   }
